@@ -1523,6 +1523,44 @@ struct InterpEngine : Engine
 			if(o.kind != "table" && o.kind != "alt" && o.kind != "setpref" && o.kind != "mul")
 				for(double v : o.d)
 					used.push_back(v);
+		// 0. large 1D tables: keep only the neighbourhood (+-2 knots) of every argument still in use, plus both ends
+		if(!t.two_d && t.x.size() > 12)
+		{
+			for(long halo : {2l, 6l})
+			{
+				std::vector<bool> keep(t.x.size(), false);
+				keep[0] = keep[1] = keep[t.x.size() - 1] = keep[t.x.size() - 2] = true;
+				for(double v : used)
+				{
+					long j = seg_of(t.xs, v);
+					for(long q = std::max(0l, j - halo); q <= std::min((long) t.x.size() - 1, j + 1 + halo); q++)
+						keep[q] = true;
+				}
+				Table q = t;
+				q.x.clear();
+				q.f.clear();
+				for(size_t k = 0; k < t.x.size(); k++)
+					if(keep[k])
+					{
+						q.x.push_back(t.x[k]);
+						q.f.push_back(t.f[k]);
+					}
+				if(q.x.size() >= 3 && q.x.size() < t.x.size())
+				{
+					q.derive();
+					bool ok = true;
+					for(double v : used)
+						if(!arg_valid(q.xs, v))
+							ok = false;
+					if(ok)
+					{
+						Plan c	 = p;
+						c.ops[0] = table_op("table", q);
+						out.push_back(c);
+					}
+				}
+			}
+		}
 		// 1. drop a knot (1D: any knot such that all query arguments stay valid; keep >= 3)
 		if(!t.two_d && t.x.size() > 3)
 		{
